@@ -23,6 +23,7 @@ import os
 import vlib
 
 THEOREMS = [
+    "prefix_monotone", "streamOp_streaming", "limitOp_streaming", "stream_chain_prefix",
     "err_propagates_partial", "err_propagates_unsound", "no_partial_ok",
     "panic_reads_as_end_of_stream", "panic_never_reported", "panic_propagates_unsound",
     "panic_witnesses_partial_ok",
@@ -49,7 +50,8 @@ def parse_model(ans):
         d["class"] = "ok"
         d["rows"] = None if t[1] == "?" else int(t[1])
         d["same"] = t[2] == "same"
-        i = 3
+        d["pfx"] = t[3] == "pfx"
+        i = 4
     rest = t[i:]
     if rest[0] == "-":
         d["dml"] = None
@@ -69,12 +71,14 @@ def compare(rec, m, nofault):
         return ["class impl=%s model=%s" % (rec["class"], m["class"])]
     # on disk the order in which a scan visits row-sets (a hash map) differs from run to run, so
     # "the first k chunks" have no stable row counts: counts are compared on the memory engine only
-    counts = rec["engine"] == "mem"
+    counts = rec["engine"] == "mem" or rec.get("det", False)
     if not counts and rec["kind"] == "panic" and rec["fired"]:
         return bad      # which chunks a truncated stream contained is not reproducible on disk: class only
     if m["class"] == "ok":
         if m["same"] and not rec["rows_eq"]:
             bad.append("model: same rows as fault-free; impl rows differ")
+        if counts and m.get("pfx") and not rec["dml"] and not rec["rows_prefix"]:
+            bad.append("model: rows are a prefix of the fault-free answer (stream_chain_prefix / prefix_monotone); impl rows are not")
         if counts and m["rows"] is not None and not rec["dml"] and rec["nrows"] != m["rows"]:
             bad.append("row count impl=%d model=%d" % (rec["nrows"], m["rows"]))
     d = m.get("dml")
@@ -127,6 +131,25 @@ def model_oracle(rec, m):
     return out
 
 
+def spawn_order():
+    """True: in Builder::spawn the receiver is deactivated before the producer task is spawned
+    (hypothesis of delivery_complete holds in the code); False: after; None: shape not recognised."""
+    try:
+        src = open(os.path.join(vlib.REPO, "src", "executor", "mod.rs")).read()
+    except OSError:
+        return None
+    a = src.find("fn spawn(&mut self")
+    if a < 0:
+        return None
+    body = src[a:]
+    b = body.find("async_broadcast::broadcast(")
+    d = body.find(".deactivate()")
+    t = body.find("tokio::task::Builder")
+    if b < 0 or d < 0 or t < 0 or d < b:
+        return None
+    return d < t
+
+
 def run_cases(ck, cases_path, tag, thorough):
     out = os.path.join(ck.work, "out-%s.jsonl" % tag)
     rc, log = vlib.sh([vlib.harness_bin("c15"), "run", cases_path, out, os.path.join(ck.work, "db-" + tag)] + (["thorough"] if thorough else []), timeout=3000)
@@ -164,7 +187,7 @@ def run(ck):
 
     cnt = collections.Counter()
     dist = {"ops": collections.Counter(), "kinds": collections.Counter(), "k": collections.Counter(),
-            "engine": collections.Counter(), "model_answers": collections.Counter(), "stmt_kind": collections.Counter()}
+            "engine": collections.Counter(), "content_compared": collections.Counter(), "model_answers": collections.Counter(), "stmt_kind": collections.Counter()}
     mvi = {"compared": 0, "disagree": 0}
     ivo = {"compared": 0, "disagree": 0, "known": 0}
     mvo = {"compared": 0, "disagree": 0}
@@ -208,6 +231,12 @@ def run(ck):
             dist["kinds"][r["kind"]] += 1
             dist["k"][min(r["k"], 3)] += 1
             dist["model_answers"][m["raw"]] += 1
+            if m.get("same"):
+                dist["content_compared"]["equal-to-fault-free-rows"] += 1
+            elif m.get("pfx") and (r["engine"] == "mem" or r.get("det")) and not r["dml"]:
+                dist["content_compared"]["strict-prefix-of-fault-free-rows"] += 1
+            elif m["class"] == "ok":
+                dist["content_compared"]["class-and-count-only"] += 1
             if not r["pre_same"]:
                 info["nondeterministic-setup"] += 1
                 continue
@@ -277,8 +306,14 @@ def run(ck):
             if chan["disagree"] == 1:
                 ck.report("corr:chan-model", "channel model and async_broadcast disagree on %s: impl=%s model=%s" % (q, i, m), replay={"request": q, "impl": i, "model": m}, found_input=False)
     # the delivery witness (first two schedules): deactivate-before-send delivers everything,
-    # send-before-deactivate (the order a multi-thread runtime can produce in Builder::spawn) loses item 1
-    if len(impl) >= 2:
+    # send-before-deactivate loses item 1.  Whether Builder::spawn can produce the second order is
+    # read from the source: is the receiver deactivated before the producer task is spawned?
+    order = spawn_order()
+    ck.coverage["spawn_deactivates_before_spawning_producer"] = order
+    if order is None:
+        ck.report("deliver:spawn-shape-not-recognised", "Builder::spawn no longer has the shape broadcast(..) / deactivate() / Builder::spawn(..): the hypothesis DeactivatedBeforeFirstSend of delivery_complete cannot be read off the source",
+                  replay={"file": "src/executor/mod.rs"}, found_input=False)
+    if len(impl) >= 2 and order is not True:
         if "got 1 2" in impl[0] and "got 2 " in impl[1] and "got 1 2" not in impl[1]:
             ck.report("deliver:send-before-deactivate-drops-items",
                       "async_broadcast as used by Builder::spawn: an item sent before `rx.deactivate()` is dropped (multi-thread runtime race; not reachable on the current-thread runtime)",
